@@ -2,9 +2,9 @@
   Model/Cell.lean — native cell values as the readers deliver them.
     CSV reader:   only `str`
     Excel reader: `none`, `str`, `int`, `float`, `bool`, `dt` (datetime.datetime), `other`
-  Floats are carried as their canonical CPython `repr` token ("nan" for NaN, "inf", "-inf",
-  "-0.0" canonicalised to "0.0" by the harness): two floats are equal by value iff the tokens
-  are equal and not "nan".  No float arithmetic is modelled anywhere.
+  Floats are carried as their CPython `repr` token ("nan" for NaN, "inf", "-inf", "-0.0"):
+  two floats are equal by value iff the tokens are equal and not "nan" (up to the sign of zero).
+  Integers carry `repr(float(i))` next to their value.  No float arithmetic is modelled anywhere.
 -/
 import PdtModel.Model.Text
 namespace Pdt
@@ -12,7 +12,7 @@ namespace Pdt
 inductive Cell
   | none
   | str (s : Str)
-  | int (i : Int)
+  | int (i : Int) (ftok : Str)   -- ftok = repr(float(i)) as computed by CPython
   | float (tok : Str)
   | bool (b : Bool)
   | dt (tok : Str)
@@ -32,7 +32,15 @@ def Cell.isStr : Cell → Bool
   | .str _ => true
   | _ => false
 
-/-- `repr(float(i))` for |i| < 2^53 (< 10^16, so never exponent notation) -/
-def floatTokOfInt (i : Int) : Str := intToStr i ++ ".0".toList
+/-- Python `str(cell)` for a native cell (`str(float)` = `repr(float)`; `str(datetime)` is the ISO
+    form with a blank instead of `T`; for `other` the harness sends `str(x)` as the tag) -/
+def Cell.pyStr : Cell → Str
+  | .none => "None".toList
+  | .str s => s
+  | .int i _ => intToStr i
+  | .float t => t
+  | .bool b => if b then "True".toList else "False".toList
+  | .dt t => t.map (fun c => if c = 'T' then ' ' else c)
+  | .other t => t
 
 end Pdt
